@@ -204,6 +204,8 @@ pub fn plan_main(args: &[String]) {
     let mut unreachable_types = 0usize;
     let names = Names::load(_dump);
     let mut unbuildable: Vec<String> = vec![];
+    // the SHORT-NAME of the named element that the chain creates carries its item name as character data
+    let mut with_data: HashSet<((u32, u32), u32)> = HashSet::new();
     for t in &all {
         let vs0 = reach_in.get(t).cloned().unwrap_or_default();
         // a chain found in the tables may still be impossible to build (a named element of Choice type: once its SHORT-NAME
@@ -212,7 +214,17 @@ pub fn plan_main(args: &[String]) {
             .iter()
             .copied()
             .filter(|v| {
-                let ok = guard(|| build(*v, &chains[&(*t, *v)], &names).map(|(_, _, e)| et_ids(&e.element_type()) == *t).unwrap_or(false)).unwrap_or(false);
+                let ok = guard(|| {
+                    build(*v, &chains[&(*t, *v)], &names)
+                        .map(|(_, _, e)| {
+                            if e.content().any(|c| matches!(c, ElementContent::CharacterData(_))) {
+                                with_data.insert((*t, *v));
+                            }
+                            et_ids(&e.element_type()) == *t
+                        })
+                        .unwrap_or(false)
+                })
+                .unwrap_or(false);
                 if !ok {
                     unbuildable.push(format!("{}:{}:{}", t.0, t.1, v));
                 }
@@ -231,7 +243,7 @@ pub fn plan_main(args: &[String]) {
             p
         };
         for v in pick {
-            text.push_str(&format!("{} {} {} {}\n", t.0, t.1, v, chains[&(*t, v)]));
+            text.push_str(&format!("{} {} {} {} {}\n", t.0, t.1, v, chains[&(*t, v)], if with_data.contains(&(*t, v)) { "D" } else { "E" }));
             n += 1;
         }
     }
@@ -545,8 +557,15 @@ fn sweep_one(c: &mut Ctx, names: &Names, def: u32, typ: u32, v: u32, chain: &str
     bump(c, "contents0", 1);
     let listing = st.e.list_valid_sub_elements();
     let l = listing.len();
+    // names that the type lists more than once (with different version masks) are always part of the contents
+    let all_names: Vec<ElementName> = st.e.element_type().sub_element_spec_iter().map(|x| x.0).collect();
+    let split: Vec<usize> = (0..l).filter(|i| all_names.iter().filter(|n| **n == listing[*i].element_name).count() > 1).take(8).collect();
+    let mut s1 = sample(l, cap1);
+    s1.extend(split.iter().copied());
+    s1.sort();
+    s1.dedup();
     // size 1
-    for i in sample(l, cap1) {
+    for i in s1 {
         let v1 = &listing[i];
         let r = guard(|| create_child(&st.e, v1.element_name, v1.is_named, "aa1", None));
         match r {
@@ -562,7 +581,10 @@ fn sweep_one(c: &mut Ctx, names: &Names, def: u32, typ: u32, v: u32, chain: &str
         }
     }
     // size 2
-    let s2 = sample(l, cap2);
+    let mut s2 = sample(l, cap2);
+    s2.extend(split.iter().take(2).copied());
+    s2.sort();
+    s2.dedup();
     for &i in &s2 {
         let v1 = &listing[i];
         for &j in &s2 {
@@ -628,23 +650,125 @@ fn op_kind(op: &Op) -> String {
     op.line().split_whitespace().nth(1).unwrap_or("?").to_string()
 }
 
-fn hist_script(dump: String, probes: Vec<String>, ops: Vec<Op>, tx: mpsc::Sender<Option<String>>) {
-    let names = Names::load(&dump);
+
+/// state conditions that are recorded findings of C07 or of neighbouring properties; a failure of the history oracle is only
+/// attributed to a finding when the matching condition holds in the state (checks/c07.py decides)
+fn state_causes(ex: &Exec, xcopy_done: bool) -> Vec<&'static str> {
+    let mut c = vec![];
+    if xcopy_done {
+        c.push("after-cross-version-copy");
+    }
+    for m in &ex.models {
+        let mut vs: Vec<u32> = m.files().map(|f| f.version() as u32).collect();
+        vs.sort();
+        vs.dedup();
+        if vs.len() > 1 && !c.contains(&"mixed-version-files") {
+            c.push("mixed-version-files");
+        }
+        let root = m.root_element();
+        let dflt = |a: AttributeName, want: &str| -> bool {
+            match root.attribute_value(a) {
+                Some(CharacterData::String(s)) => s == want,
+                None => true,
+                _ => false,
+            }
+        };
+        if !(dflt(AttributeName::xmlns, "http://autosar.org/schema/r4.0") && dflt(AttributeName::xmlnsXsi, "http://www.w3.org/2001/XMLSchema-instance"))
+            && !c.contains(&"root-namespace-edited")
+        {
+            c.push("root-namespace-edited");
+        }
+        // duplicate AUTOSAR paths, computed from the tree
+        let mut seen: HashSet<String> = HashSet::new();
+        fn walk(e: &Element, prefix: &str, depth: usize, seen: &mut HashSet<String>, dup: &mut bool) {
+            let mut p = prefix.to_string();
+            if e.is_identifiable() {
+                if let Some(n) = e.item_name() {
+                    p = format!("{}/{}", prefix, n);
+                }
+                if !seen.insert(p.clone()) {
+                    *dup = true;
+                }
+            }
+            if depth < 300 {
+                for s in e.sub_elements() {
+                    walk(&s, &p, depth + 1, seen, dup);
+                }
+            }
+        }
+        let mut dup = false;
+        walk(&root, "", 0, &mut seen, &mut dup);
+        if dup && !c.contains(&"duplicate-path") {
+            c.push("duplicate-path");
+        }
+    }
+    c
+}
+
+/// string values trimmed, empty strings dropped (what the loader does to String / Pattern values without preserve_whitespace)
+fn normalise_view(v: &[String]) -> Vec<String> {
+    v.iter()
+        .map(|l| {
+            let mut out = String::new();
+            let mut rest = l.as_str();
+            // tokens S<hex> appear after '=' , '[' or ','
+            while let Some(k) = rest.find(|ch| ch == '=' || ch == '[' || ch == ',') {
+                out.push_str(&rest[..=k]);
+                rest = &rest[k + 1..];
+                if let Some(h) = rest.strip_prefix('S') {
+                    let end = h.find(|ch: char| !ch.is_ascii_hexdigit()).unwrap_or(h.len());
+                    if end % 2 == 0 {
+                        let bytes = unhex(&h[..end]);
+                        let t = String::from_utf8_lossy(&bytes).trim_matches(|ch: char| ch == ' ' || ch == '\t' || ch == '\n' || ch == '\r').to_string();
+                        if !t.is_empty() {
+                            out.push('S');
+                            out.push_str(&hex(t.as_bytes()));
+                        }
+                        rest = &h[end..];
+                    }
+                }
+            }
+            out.push_str(rest);
+            out.replace("[,", "[").replace(",]", "]").replace(",,", ",")
+        })
+        .collect()
+}
+
+fn hist_script(names: std::sync::Arc<Names>, sd: std::sync::Arc<SpecDump>, probes: Vec<String>, ops: Vec<Op>, tx: mpsc::Sender<Option<String>>) {
     let mut ex = Exec::new(&names);
     ex.probes = probes.into_iter().filter(|p| !p.starts_with('\u{1}')).collect();
     // per file: warning signatures already reported / present before the step
     let mut before: HashMap<usize, HashSet<String>> = HashMap::new();
-    let sd = SpecDump::load(&dump);
     let mut unordered_before: HashSet<Element> = HashSet::new();
+    let mut xcopy_done = false;
     for (step, op) in ops.iter().enumerate() {
         let _ = tx.send(Some(format!("@{} {}", step, op_kind(op))));
+        let cross = match op {
+            Op::Copy(d, o) | Op::CopyAt(d, o, _) => match (ex.handles.get(*d).map(|e| e.min_version()), ex.handles.get(*o).map(|e| e.min_version())) {
+                (Some(Ok(a)), Some(Ok(b))) => a != b,
+                // a source outside any file has no version of its own
+                (Some(Ok(_)), Some(Err(_))) => true,
+                _ => false,
+            },
+            _ => false,
+        };
         let res = ex.apply(op);
+        if cross && res.starts_with("R OK") {
+            xcopy_done = true;
+        }
+        if std::env::var("AVH_RANGE_RESULTS").is_ok() {
+            let _ = tx.send(Some(format!("RES step={} op={} {}", step, op_kind(op), res)));
+        }
         if res == "R PANIC" {
             let _ = tx.send(Some(format!("HFAIL step={} op={} kind=panic -", step, op_kind(op))));
             break;
         }
         let r = guard(|| {
             let mut out: Vec<String> = vec![];
+            let causes = {
+                let c = state_causes(&ex, xcopy_done);
+                if c.is_empty() { "-".to_string() } else { c.join(",") }
+            };
             // specification order of every child list of every live element (independent reading of the dumped tables)
             let mut unordered_now: HashSet<Element> = HashSet::new();
             for m in &ex.models {
@@ -661,9 +785,9 @@ fn hist_script(dump: String, probes: Vec<String>, ops: Vec<Op>, tx: mpsc::Sender
                     if !ok {
                         if !unordered_before.contains(&e) {
                             out.push(format!(
-                                "HFAIL step={} op={} res={} kind=order:{} parent={} children={:?} version={}",
+                                "HFAIL step={} op={} res={} kind=order:{} causes={} parent={} children={:?} version={}",
                                 step, op_kind(op), res.replace(' ', "_"), if ls.is_none() { "child-not-in-version" } else { "not-in-specification-order" },
-                                e.element_name(), kids, ver as u32
+                                causes, e.element_name(), kids.iter().map(|k| k.to_string()).collect::<Vec<_>>().join("+"), ver as u32
                             ));
                         }
                         unordered_now.insert(e.clone());
@@ -696,7 +820,11 @@ fn hist_script(dump: String, probes: Vec<String>, ops: Vec<Op>, tx: mpsc::Sender
                         if let Some(v2) = v2 {
                             let v1 = file_view(f);
                             if v2 != v1 {
-                                sigs.insert("reload-content-differs".to_string());
+                                if normalise_view(&v1) == normalise_view(&v2) {
+                                    sigs.insert("reload-content-differs:string-blank-or-empty".to_string());
+                                } else {
+                                    sigs.insert("reload-content-differs".to_string());
+                                }
                                 if show {
                                     let d: Vec<String> = v1.iter().zip(v2.iter()).filter(|(a, b)| a != b).take(3).map(|(a, b)| format!("{} | {}", a, b)).collect();
                                     out.push(format!("SHOW step={} file={} lines {} vs {} first differences: {:?}", step, k, v1.len(), v2.len(), d));
@@ -708,7 +836,7 @@ fn hist_script(dump: String, probes: Vec<String>, ops: Vec<Op>, tx: mpsc::Sender
                 let old = before.entry(k).or_default();
                 for s in sigs.iter() {
                     if !old.contains(s) {
-                        out.push(format!("HFAIL step={} op={} res={} kind={} file={} version={}", step, op_kind(op), res.replace(' ', "_"), s, k, f.version() as u32));
+                        out.push(format!("HFAIL step={} op={} res={} kind={} causes={} file={} version={}", step, op_kind(op), res.replace(' ', "_"), s, causes, k, f.version() as u32));
                     }
                 }
                 *old = sigs;
@@ -736,14 +864,17 @@ pub fn hist_main(args: &[String]) {
     let mut nsteps = 0u64;
     let mut nscripts = 0u64;
     let mut nfail = 0u64;
+    let names = std::sync::Arc::new(Names::load(&dump));
+    let sd = std::sync::Arc::new(SpecDump::load(&dump));
     for (idx, probes, ops) in read_scripts(script) {
         nscripts += 1;
         let (tx, rx) = mpsc::channel::<Option<String>>();
-        let d = dump.clone();
-        std::thread::Builder::new().stack_size(256 * 1024 * 1024).spawn(move || hist_script(d, probes, ops, tx)).unwrap();
+        let (n2, s2) = (names.clone(), sd.clone());
+        std::thread::Builder::new().stack_size(256 * 1024 * 1024).spawn(move || hist_script(n2, s2, probes, ops, tx)).unwrap();
         let mut current = String::new();
         loop {
-            match rx.recv_timeout(std::time::Duration::from_millis(6000)) {
+            // generous: the machine may be heavily loaded; a real hang of the library never returns
+            match rx.recv_timeout(std::time::Duration::from_millis(40000)) {
                 Ok(Some(l)) => {
                     if let Some(rest) = l.strip_prefix('@') {
                         current = rest.to_string();
@@ -751,7 +882,7 @@ pub fn hist_main(args: &[String]) {
                     } else if l.starts_with("HFAIL ") {
                         nfail += 1;
                         println!("{} script={}", l, idx);
-                    } else if l.starts_with("SHOW ") {
+                    } else if l.starts_with("SHOW ") || l.starts_with("RES ") {
                         println!("{} script={}", l, idx);
                     }
                 }
